@@ -94,7 +94,7 @@ Definition sum_backward (g:tensor A) (sa:shape) (ax:axis_arg) (keep:bool) : opti
   g' <- bw_expand g ax keep ;; badd (zeros sa) g'.
 
 (* ---------------- mean ---------------- *)
-Context `{ScalarDiv A}.
+Context `{!ScalarDiv A}.
 Definition mean_forward (a:tensor A) (ax:axis_arg) (keep:bool) : option (tensor A) :=
   match np_reduce_axes false (rank a) ax with
   | Some ks => let m := mask_of (rank a) ks in
@@ -115,7 +115,7 @@ Definition mean_backward (g:tensor A) (sa:shape) (ax:axis_arg) (keep:bool) : opt
   Some (tmap (fun v => sdivn v (mean_n_samples sa ax)) o).
 
 (* ---------------- max / min ---------------- *)
-Context `{ScalarOrd A}.
+Context `{!ScalarOrd A}.
 (* position of the first largest element (np.argmax tie rule); [le] is <= for max, >= for min *)
 Fixpoint arg_first (le:A->A->bool) (best:nat) (bv:A) (pos:nat) (l:list A) : nat :=
   match l with
